@@ -1107,6 +1107,10 @@ class Interp:
             return self.call_function(fi, [obj], {}, self_obj=obj)
         if name in obj.fields:
             return obj.fields[name]
+        if issubclass(obj.cls, tuple) and hasattr(obj.cls, '_fields') and name in ('_replace', '_asdict', '_fields'):
+            if name == '_fields':
+                return obj.cls._fields
+            return SymMethod(obj, name)
         if name.startswith('_') and obj.varstore is not None and name[1:] in getattr(obj, 'known_vars', ()):
             vv = obj.varstore.view(z3.StringVal(name[1:]))
             hook = getattr(obj, 'on_var_access', None)
